@@ -1991,7 +1991,13 @@ class KmipEngine(object):
             )
 
         managed_object_factory = factory.ObjectFactory()
-        managed_object = managed_object_factory.convert(secret)
+        try:
+            managed_object = managed_object_factory.convert(secret)
+        except (TypeError, ValueError):
+            raise exceptions.InvalidField(
+                "The secret is malformed or inconsistent with its declared "
+                "properties and cannot be registered."
+            )
         managed_object.names = []
 
         self._set_attributes_on_managed_object(
